@@ -488,7 +488,9 @@ def c09(ctx):
             ops = [('push', 2, 0, [s_] * c) for s_, c in ca.items()] + [('merge', 0, [2])]
             ops += [('clear', 2)] + [('push', 2, 0, [s_] * c) for s_, c in cb.items()] + [('merge', 1, [2])]
             rare_a = syms[0]; rare_b = perm[0]
-            items = [[rare_a] * 3, [rare_b] * 3, [rare_a, syms[-1], rare_a], [ctx.rng.choice(syms) for _ in range(6)]]
+            # the two rarest symbols of either code book tie: which of them gets the all-ones (deepest) code is a tie-break
+            items = [[rare_a] * 3, [rare_b] * 3, [syms[1]] * 3, [perm[1]] * 3, [rare_a, syms[-1], rare_a], [syms[1], syms[-1], perm[1]],
+                     [ctx.rng.choice(syms) for _ in range(6)]]
             for v in items: ops.append(('push', 0, 0, v))
             for v in items[::-1]: ops.append(('push', 1, 0, v))
             ops += [('clonefrom', 1, 0), ('probe', 1), ('probe', 0)]
